@@ -312,13 +312,18 @@ def m_moved_out_race(f, case, viol):
     plan = case.get("plan", [])
     ok = []
     for m in moves:
+        roots = tuple(case.get("cfg", {}).get("roots", ("/local", "/remote")))
         for j, u in enumerate(plan):
-            if j == m[0] or not u or u[0] != "U" or u[1] == m[1]:
+            if j == m[0] or not u or u[0] not in ("U", "A") or u[1] == m[1]:
                 continue
             lo, hi = min(j, m[0]), max(j, m[0])
             if any(it and it[0] == "Q" for it in plan[lo + 1:hi]):
                 continue
-            if any(_related(q, m[3]) for q in _op_paths(u)):
+            qs = _op_paths(u)
+            if u[0] == "A":     # account paths of the peer: keep those inside its root, relative to it
+                r = roots[u[1]]
+                qs = [q[len(r):] for q in qs if q.startswith(r + "/")]
+            if any(_related(q, m[3]) for q in qs):
                 ok.append(m)
     if not ok:
         return False
